@@ -191,9 +191,12 @@ def _rand_value(rnd, depth, pool, alias):
     elif k == 10:
         v = Box(x=_rand_value(rnd, depth + 1, pool, alias), y=rnd.randrange(9))
     elif k == 11:
+        # elements of an object array never alias older objects: a reference CYCLE through a numpy object
+        # array is copied by numpy's own ndarray.__deepcopy__ with one extra unrolling (numpy does not memoise
+        # the array before its elements), which is equal only up to unfolding -- a numpy matter, excluded
         a = numpy.empty(2, dtype=object)
-        a[0] = _rand_value(rnd, depth + 1, pool, alias)
-        a[1] = [_rand_value(rnd, depth + 1, pool, alias)]
+        a[0] = _rand_value(rnd, depth + 1, [], False)
+        a[1] = [_rand_value(rnd, depth + 1, [], False)]
         v = a
     else:
         v = (Box(z=[rnd.randrange(9)]), [rnd.randrange(9)])
@@ -676,9 +679,9 @@ def _run(case):
         # -- the stored initial state is never modified
         for i, s in enumerate(SLOTS):
             now = getattr(prog, "start_" + s)
-            if now is not given[i]:
-                raise _Bad("c20-start-state-modified", "start_%s is no longer the container object that was stored" % s)
-            fz = freeze(now)
+            if not isinstance(now, dict):
+                raise _Bad("c20-start-state-modified", "start_%s is %r after the run" % (s, now))
+            fz = freeze(now)      # value comparison against the twin the library never saw
             if fz != init_frozen[i]:
                 raise _Bad("c20-start-state-modified", "start_%s was modified: now %s, initially %s"
                            % (s, _short(fz), _short(init_frozen[i])))
@@ -737,7 +740,7 @@ def gen_grid(rng, tier):
 
 def gen_history(rng, tier):
     """seeded random multi-step histories"""
-    total = 2500 if tier == "quick" else 40000
+    total = 1800 if tier == "quick" else 30000
     for j in range(total):
         seed = rng.randrange(10 ** 9)
         nruns = rng.choice([0, 1, 1, 2, 2, 3])
@@ -801,7 +804,7 @@ def u_ring_grid(ctx):
 
 @unit(P, U_HIST, "R", bounded=True,
       note="bounded: 0..3 evolve() calls with nrep,ngen in 0..4, <=4 extra advance() generations, seeded random states "
-           "(quick 2500 / thorough 40000 cases)")
+           "(quick 1800 / thorough 30000 cases)")
 def u_ring_hist(ctx):
     ctx.rule = ("seeded random histories on one program object: 0-3 evolve calls (loginit False/True/default), stale working "
                 "state and t_cur before the first call, advance() continued after evolve, bare reset()+advance(), logbook "
